@@ -225,6 +225,26 @@ func ruleVLQ(c *Ctx, rEnc, rDec, rComp string) {
 				}
 				c.Check(ok, rDec, "VLQ decode truncated quantity", p.Pos(dec.Pos()), "input ending after a continuation byte yields a non-nil error", "a truncated quantity is accepted without error")
 			}
+			// input that ends exactly where the quantity starts => error, never the value 0
+			{
+				ex := NewExec(p)
+				st := ex.NewState()
+				src := ex.mkBytes(st, "t", nil, false, 0)
+				rd := ex.readerOver(st, src)
+				outs := ex.Call(st, dec, []Val{rd}, nil)
+				ok := len(outs) > 0
+				for _, o := range outs {
+					if o.Panic {
+						ok = false
+						continue
+					}
+					ev, _ := o.Ret[1].(*IfaceV)
+					if ev == nil || ev.Nil || (ev.Unk && !ev.NonNil) {
+						ok = false
+					}
+				}
+				c.Check(ok, rDec, "VLQ decode at end of input", p.Pos(dec.Pos()), "no byte available yields a non-nil error", "a quantity that is missing altogether is decoded as 0 without error: a truncated file gets an invented empty event")
+			}
 		}
 	}
 	if rComp != "" && enc != nil && dec != nil {
@@ -1872,4 +1892,92 @@ func rulePlumbing(c *Ctx, rule string) {
 
 func m1Type(add *ssa.Function) types.Type {
 	return add.Params[2].Type().Underlying().(*types.Slice).Elem()
+}
+
+// ruleChunkLoop: the event reader is only entered inside a track chunk: an alien chunk (of any type and size) in front
+// of a track chunk is skipped and the following MTrk chunk is entered before the next event is decoded.
+func ruleChunkLoop(c *Ctx, rule string) {
+	p := c.P
+	cr := findChunkReader(p)
+	dec := findEventDecoder(p)
+	rf := p.Func("smf", "ReadFrom")
+	if cr == nil || dec == nil || rf == nil {
+		c.Unk(rule, "chunk reader / event decoder", "-", "not resolved")
+		return
+	}
+	// the caller of the chunk reader that also reaches the event decoder
+	var rd *ssa.Function
+	for _, f := range p.Reachable(rf) {
+		callsCR := false
+		for _, call := range calls(f) {
+			if call.Common().StaticCallee() == cr {
+				callsCR = true
+			}
+		}
+		if !callsCR {
+			continue
+		}
+		for _, g := range p.Reachable(f) {
+			if g == dec {
+				rd = f
+			}
+		}
+	}
+	if rd == nil {
+		c.Unk(rule, "event-or-chunk dispatcher", "-", "no function calls the chunk reader and reaches the event decoder")
+		return
+	}
+	c.Fn(FuncName(rd))
+	for _, nAlien := range []int{1, 2} {
+		ex := NewExec(p)
+		ex.Unroll = 6
+		st := ex.NewState()
+		rp, sp := mkReaderObj(ex, st, p)
+		newRR := p.Func("internal/runningstatus", "NewSMFReader")
+		r := ex.Call(st, newRR, nil, nil)
+		if len(r) != 1 {
+			c.Unk(rule, "NewSMFReader", "-", "not interpretable")
+			return
+		}
+		st = r[0].St
+		ex.setField(st, rp, "runningStatus", r[0].Ret[0])
+		ex.setField(st, rp, "headerIsRead", &BoolV{Known: true, Val: true})
+		ex.setField(st, rp, "expectChunk", &BoolV{Known: true, Val: true})
+		ex.setField(st, rp, "processedTracks", mkConst(-1, 16, true))
+		ex.setField(st, sp, "numTracks", mkConst(1, 16, false))
+		k8 := func(v int64) Val { return mkConst(v, 8, false) }
+		var bytes []Val
+		for a := 0; a < nAlien; a++ {
+			for _, ch := range "XFIH" {
+				bytes = append(bytes, k8(int64(ch)))
+			}
+			bytes = append(bytes, k8(0), k8(0), k8(0), k8(2), ex.byteSym(fmt.Sprintf("junk%d", 2*a)), ex.byteSym(fmt.Sprintf("junk%d", 2*a+1)))
+		}
+		for _, ch := range "MTrk" {
+			bytes = append(bytes, k8(int64(ch)))
+		}
+		bytes = append(bytes, k8(0), k8(0), k8(0), k8(4), k8(0x00), k8(0xFF), k8(0x2F), k8(0x00))
+		src := ex.mkBytes(st, "file", bytes, false, 0)
+		ex.setField(st, rp, "input", ex.readerOver(st, src))
+		ok := true
+		why := ""
+		n := 0
+		for _, o := range ex.Call(st, rd, []Val{rp}, nil) {
+			n++
+			if o.Panic {
+				ok = false
+				why = o.Msg
+				continue
+			}
+			ev, _ := o.Ret[len(o.Ret)-1].(*IfaceV)
+			msg, _ := o.Ret[0].(*SliceV)
+			el, okE := ex.sliceElems(o.St, msg)
+			want := []Val{k8(0xFF), k8(0x2F), k8(0)}
+			if ev == nil || !ev.Nil || !okE || !segsEqual([]Seg{{Elems: el}}, []Seg{{Elems: want}}, o.St.sameVal) {
+				ok = false
+				why = fmt.Sprintf("%d alien chunk(s) before the track chunk: the first event is decoded as %s with error %s — after skipping an unknown chunk the reader must look for the next chunk header before decoding an event", nAlien, valString(o.Ret[0]), valString(o.Ret[len(o.Ret)-1]))
+			}
+		}
+		c.Check(ok && n > 0, rule, fmt.Sprintf("%d alien chunk(s) before a track chunk are skipped", nAlien), p.Pos(rd.Pos()), "the first event returned is the track's first event (FF 2F 00), no error", why)
+	}
 }
